@@ -29,10 +29,10 @@ m = {
     "version": 1,
     "setup_cmd": "./setup.sh",
     "hooks": {
-        "guard": "kani",
-        "enable": "cfg(kani) is set only by the Kani compiler; contract modules are injected by one `#[cfg(kani)] #[path=…] mod verif_<unit>;` line per source file into a scratch overlay of /repo's working tree on every run (lib/vlib.py); Verus units are extracted from the working tree on every run. /repo carries no hook commits.",
+        "guard": "kahflane_turdb_verif_small_pages",
+        "enable": "page-level checks (C34) build /repo with RUSTFLAGS='--cfg kahflane_turdb_verif_small_pages' (PAGE_SIZE = 256 instead of 16384; the one hook commit). All contracts themselves live outside /repo: contract modules are injected by one `#[cfg(kani)] #[path=…] mod verif_<unit>;` line per source file into a scratch overlay of /repo's working tree on every run (cfg(kani) is set only by the Kani compiler); Verus units are extracted from the working tree on every run.",
         "baseline_off_cmd": "cd /repo && cargo nextest run --workspace --no-fail-fast --test-threads 8 --offline",
-        "source_commits": [],
+        "source_commits": ["d1b393f"],
         "add_only": True,
     },
     "engines": [{"name": "contracts", "path": "/verif/check", "serves_properties": [c["property_id"] for c in checks],
